@@ -1,9 +1,279 @@
 (* C13 -- rrulestr and str(rrule) are inverse; RFC text means the same as keywords.
-   Statements only; proofs are in rstr/RstrThm*.v. *)
-From Coq Require Import ZArith List Bool.
-From V Require Import base.Cal rstr.RstrPrim rstr.RstrModel rstr.RstrSpec rstr.RstrThm.
+   Statements only; proofs are in rstr/RstrThm*.v.
+   Model: rstr/RstrModel.v (parse_rfc = _rrulestr._parse_rfc, ctor = rrule.__init__ argument
+   processing, to_str = rrule.__str__); spec: rstr/RstrSpec.v (spell = all RFC spellings). *)
+From Coq Require Import String ZArith List Bool Permutation.
+From V Require Import base.Cal rstr.RstrPrim rstr.RstrModel rstr.RstrSpec rstr.RstrThm
+  rstr.RstrThmWd rstr.RstrThmParts rstr.RstrThmKw rstr.RstrThmSpell rstr.RstrThmTop rstr.RstrThmStr
+  rstr.RstrThmCtor rstr.RstrThmFinal rstr.RstrThmErr rstr.RstrThmSet rstr.RstrThmFold rstr.RstrThmWf rstr.RstrThmFold2 rstr.RstrThmIg rstr.RstrThmTzid rstr.RstrThmCompat rstr.RstrThmTzid2.
 Import ListNotations.
 Open Scope Z_scope.
+
+(* str_roundtrip: for every start and keyword arguments the constructor accepts, within
+     wf_start_kw: naive valid start (years 1..9999), freq / wkst / weekdays in RFC range, naive until
+                  in whole seconds;
+     wf_args:     no empty BY tuple, no 0 in BYMONTHDAY, weekday n <> 0;
+     e_fwd = 0:   calendar.firstweekday() unchanged (F-C13-c otherwise),
+   rrulestr(str(rule)) (default options; cache passes through) is a rule with identical state: start,
+   freq, interval, wkst, count, until, every derived BY-field and the recorded original arguments.
+   Equal state => equal occurrences is C01's determinism (checked on the real library per case). *)
+Theorem C13_str_roundtrip : forall ev o st kw r,
+  ctor ev (Some st) kw = Ok r -> e_fwd ev = 0 -> wf_args kw = true -> wf_start_kw st kw = true ->
+  o_forceset o = false -> o_compatible o = false -> o_ignoretz o = false -> o_unfold o = false ->
+  parse_rfc ev o (to_str r) = RRule (o_cache o) r.
+Proof. exact str_roundtrip_args. Qed.
+Print Assumptions C13_str_roundtrip.
+
+(* the same with the well-formedness stated on the rule *)
+Theorem C13_str_roundtrip_rule : forall ev o st kw r,
+  ctor ev (Some st) kw = Ok r -> e_fwd ev = 0 -> wf_args kw = true -> wf_rule r = true ->
+  o_forceset o = false -> o_compatible o = false -> o_ignoretz o = false -> o_unfold o = false ->
+  parse_rfc ev o (to_str r) = RRule (o_cache o) r.
+Proof. exact str_roundtrip. Qed.
+Print Assumptions C13_str_roundtrip_rule.
+
+(* until with a fractional second: str() truncates it, everything else is identical *)
+Theorem C13_str_roundtrip_until_us : forall ev o st kw r,
+  ctor ev (Some st) kw = Ok r -> e_fwd ev = 0 -> wf_args kw = true -> wf_rule (trunc_until r) = true ->
+  o_forceset o = false -> o_compatible o = false -> o_ignoretz o = false -> o_unfold o = false ->
+  parse_rfc ev o (to_str r) = RRule (o_cache o) (trunc_until r).
+Proof. exact str_roundtrip_until_us. Qed.
+Print Assumptions C13_str_roundtrip_until_us.
+
+(* the constructor is idempotent on the recorded arguments *)
+Theorem C13_ctor_idem : forall ev st kw r, ctor ev (Some st) kw = Ok r -> e_fwd ev = 0 -> wf_args kw = true ->
+  ctor ev (Some (r_dtstart r)) (kw_of_rule r) = Ok r.
+Proof. exact ctor_idem. Qed.
+Print Assumptions C13_ctor_idem.
+
+(* the guards are needed: calendar.firstweekday() <> 0 (finding F-C13-c), an empty BY tuple,
+   an aware start *)
+Theorem C13_str_roundtrip_firstweekday_refuted : exists ev st kw r,
+  ctor ev (Some st) kw = Ok r /\ e_fwd ev <> 0 /\ wf_args kw = true /\ wf_rule r = true /\
+  parse_rfc ev o_default (to_str r) <> RRule false r.
+Proof. exact str_roundtrip_firstweekday_refuted. Qed.
+Print Assumptions C13_str_roundtrip_firstweekday_refuted.
+
+Theorem C13_str_roundtrip_empty_tuple_refuted : exists st kw r,
+  ctor ev0 (Some st) kw = Ok r /\ wf_args kw = false /\ parse_rfc ev0 o_default (to_str r) <> RRule false r.
+Proof. exact str_roundtrip_empty_tuple_refuted. Qed.
+Print Assumptions C13_str_roundtrip_empty_tuple_refuted.
+
+Theorem C13_str_roundtrip_aware_refuted : exists st kw r,
+  ctor ev0 (Some st) kw = Ok r /\ dtz st = 1 /\ parse_rfc ev0 o_default (to_str r) <> RRule false r.
+Proof. exact str_roundtrip_aware_refuted. Qed.
+Print Assumptions C13_str_roundtrip_aware_refuted.
+
+(* rrulestr(str(rule)): the text written by __str__ makes rrulestr call the constructor with the
+   rule's start and exactly its recorded original arguments (kw_of_rule). *)
+Theorem C13_str_roundtrip_text : forall ev o r, wf_rule r = true ->
+  o_forceset o = false -> o_compatible o = false -> o_ignoretz o = false -> o_unfold o = false ->
+  parse_rfc ev o (to_str r) = single ev (o_cache o) (Some (r_dtstart r)) (kw_of_rule r).
+Proof. exact str_roundtrip_text. Qed.
+Print Assumptions C13_str_roundtrip_text.
+
+(* every spelling of the rule value (order of the parts, BYDAY/BYWEEKDAY, '+1MO' / '1MO' / 'MO(+1)' /
+   'MO(1)' per member, '+' on positive list members, UNTIL as DATE / DATE-TIME / with Z) is read
+   back as exactly the keyword arguments it spells *)
+Theorem C13_spelling_value : forall c k, wf_kw k = true -> parse_rrule_kw false (spell_value c k) = Ok k.
+Proof. exact spell_value_parse. Qed.
+Print Assumptions C13_spelling_value.
+
+(* start passed as dtstart= (or absent), value with or without the 'RRULE:' prefix *)
+Theorem C13_spelling_dtstart_option : forall ev o c k, wf_kw k = true ->
+  o_forceset o = false -> o_compatible o = false -> o_ignoretz o = false -> o_unfold o = false ->
+  parse_rfc ev o ((if c_prefix c then s_RRULEc else []) ++ spell_value c k) = single ev (o_cache o) (o_dtstart o) k.
+Proof. exact rrulestr_value. Qed.
+Print Assumptions C13_spelling_dtstart_option.
+
+(* inline DTSTART line (plain, ;VALUE=DATE-TIME, ;VALUE=DATE, naive or with Z) *)
+Theorem C13_spelling_dtstart_inline : forall ev o c d k, wf_kw k = true ->
+  valid_dt d = true -> dus d = 0 -> (dtz d = 0 \/ dtz d = 1) ->
+  o_forceset o = false -> o_compatible o = false -> o_ignoretz o = false -> o_unfold o = false ->
+  parse_rfc ev o (dtstart_line c [] d ++ [10] ++ (if c_prefix c then s_RRULEc else []) ++ spell_value c k)
+  = single ev (o_cache o) (Some d) k.
+Proof. exact rrulestr_dtstart_line. Qed.
+Print Assumptions C13_spelling_dtstart_inline.
+
+Theorem C13_byday_spellings : forall style w, wf_wd w = true -> parse_wd (wd_spell style w) = Some w.
+Proof. exact parse_wd_spell. Qed.
+Print Assumptions C13_byday_spellings.
+
+(* the order of distinct parts does not matter *)
+Theorem C13_part_order : forall ps ps', Permutation ps ps' -> NoDup (map part_key ps) -> Forall keyok ps ->
+  kw_of_parts ps' = kw_of_parts ps.
+Proof. exact kw_of_parts_perm. Qed.
+Print Assumptions C13_part_order.
+
+(* letter case: the text is upper-cased first *)
+Theorem C13_case_invariance : forall ev o s s', upper s = upper s' -> tzid_findall s = tzid_findall s' ->
+  forallb is_ascii s = forallb is_ascii s' -> parse_rfc ev o s = parse_rfc ev o s'.
+Proof. exact case_invariance. Qed.
+Print Assumptions C13_case_invariance.
+
+Theorem C13_spelling_case : forall ev o mask s, tzid_findall s = [] -> tzid_findall (case_text mask mask s) = [] ->
+  parse_rfc ev o (case_text mask mask s) = parse_rfc ev o s.
+Proof. exact spelling_case. Qed.
+Print Assumptions C13_spelling_case.
+
+(* folded lines: whatever the fold positions, splitlines + the unfold loop give back the lines,
+   i.e. the lines split() finds in the unfolded text *)
+Theorem C13_unfold_fold_lines : forall ps ls, Forall okseg ls ->
+  get_lines true (join [10] (map (fold_line ps 0) ls)) = ls.
+Proof. exact unfold_fold_lines. Qed.
+Print Assumptions C13_unfold_fold_lines.
+
+Theorem C13_folded_lines : forall ps ls, Forall okseg ls ->
+  get_lines true (join [10] (map (fold_line ps 0) ls)) = get_lines false (join [10] ls).
+Proof. exact folded_lines. Qed.
+Print Assumptions C13_folded_lines.
+
+(* the folded spelling at top level: unfold=True, DTSTART line + rule line folded at any positions *)
+Theorem C13_spelling_folded : forall ev o c d k ps, wf_kw k = true ->
+  valid_dt d = true -> dus d = 0 -> (dtz d = 0 \/ dtz d = 1) ->
+  o_forceset o = false -> o_compatible o = false -> o_ignoretz o = false -> o_unfold o = true ->
+  parse_rfc ev o (join [10] (map (fold_line ps 0)
+     [dtstart_line c [] d; (if c_prefix c then s_RRULEc else []) ++ spell_value c k]))
+  = single ev (o_cache o) (Some d) k.
+Proof. exact rrulestr_folded. Qed.
+Print Assumptions C13_spelling_folded.
+
+(* spelling_invariance, all choices at once for an inline DTSTART (without TZID parameter): order of
+   parts, BYDAY/BYWEEKDAY and the four member forms, '+' signs, DATE / DATE-TIME / Z, VALUE=,
+   'RRULE:' prefix, fold positions, letter case: rrulestr returns what the keyword constructor returns *)
+Theorem C13_spelling_invariance : forall ev o c d k, wf_kw k = true ->
+  valid_dt d = true -> dus d = 0 -> (dtz d = 0 \/ dtz d = 1) -> c_inline c <> 0 ->
+  o_forceset o = false -> o_compatible o = false -> o_ignoretz o = false -> o_unfold o = true ->
+  let folded := join [10] (map (fold_line (c_folds c) 0) (spell_lines c [] (Some d) k)) in
+  tzid_findall folded = [] -> tzid_findall (case_text (c_case c) (c_case c) folded) = [] ->
+  parse_rfc ev o (spell c [] (Some d) k) = single ev (o_cache o) (Some d) k.
+Proof. exact spelling_invariance. Qed.
+Print Assumptions C13_spelling_invariance.
+
+(* inline DTSTART with a TZID parameter: the regex collects exactly the name, the zone tzids gives for
+   it is applied to the naive value; every spelling of the rule value as above *)
+Theorem C13_spelling_tzid : forall ev o c d k name tag, wf_kw k = true ->
+  valid_dt d = true -> dus d = 0 -> dtz d = 0 ->
+  name <> [] -> forallb namec name = true -> tz_get (o_tzids o) name = tag -> tag <> 0 ->
+  o_forceset o = false -> o_compatible o = false -> o_ignoretz o = false -> o_unfold o = false ->
+  parse_rfc ev o (s_DTSTART ++ s_TZIDparm ++ name ++ 58 :: dt_spell (c_dshort c) d ++ 10 ::
+                  (if c_prefix c then s_RRULEc else []) ++ spell_value c k)
+  = single ev (o_cache o) (Some (with_tz d tag)) k.
+Proof. exact rrulestr_tzid. Qed.
+Print Assumptions C13_spelling_tzid.
+
+Theorem C13_tzid_names : forall pre name rest, noTZ (pre ++ [84]) = true -> name <> [] ->
+  has_char 58 name = false -> noTZ rest = true ->
+  tzid_findall (pre ++ s_TZIDeq ++ name ++ 58 :: rest) = [name].
+Proof. exact tzid_findall_one. Qed.
+Print Assumptions C13_tzid_names.
+
+(* TZID parameter (partial): given that the name was collected from the text, the zone found
+   through tzids is applied to a naive value, and a value with Z is rejected with ValueError.
+   (The whole-text statement for the unfolded, case-preserved spelling is C13_spelling_tzid; still
+   open: TZID together with folding / lower-casing / a VALUE parameter, and TZID on EXDATE lines.) *)
+Theorem C13_tzid_param_partial : forall o names name tag short d,
+  has_char 61 (upper name) = false ->
+  tzid_lookup names (upper name) = Some name -> tz_get (o_tzids o) name = tag -> tag <> 0 ->
+  o_ignoretz o = false ->
+  valid_dt d = true -> dus d = 0 -> dtz d = 0 ->
+  parse_date_value o names (dt_spell short d) [s_TZIDeq ++ upper name] =
+  Ok [mkdt (dy d) (dmo d) (dd d) (dh d) (dmi d) (ds d) (dus d) tag].
+Proof. exact tzid_param_partial. Qed.
+Print Assumptions C13_tzid_param_partial.
+
+Theorem C13_tzid_param_twice_valueerror : forall o names name tag short d,
+  has_char 61 (upper name) = false ->
+  tzid_lookup names (upper name) = Some name -> tz_get (o_tzids o) name = tag -> tag <> 0 ->
+  o_ignoretz o = false ->
+  valid_dt d = true -> dus d = 0 -> dtz d = 1 ->
+  parse_date_value o names (dt_spell short d) [s_TZIDeq ++ upper name] = Err EValue.
+Proof. exact tzid_param_twice_valueerror. Qed.
+Print Assumptions C13_tzid_param_twice_valueerror.
+
+(* ignoretz=True: the same rule parts, UNTIL without its zone *)
+Theorem C13_ignoretz_kw : forall line k,
+  parse_rrule_kw false line = Ok k -> parse_rrule_kw true line = Ok (untz_kw k).
+Proof. exact ignoretz_kw. Qed.
+Print Assumptions C13_ignoretz_kw.
+
+(* multi-line input: exactly the listed members in their roles (RRULE / RDATE / EXRULE / EXDATE /
+   DTSTART lines in any order); forceset makes a set of a single rule *)
+Theorem C13_set_assembly : forall ev o short its rr xr,
+  its <> [] -> forallb wf_item its = true ->
+  o_ignoretz o = false -> o_compatible o = false -> o_unfold o = false ->
+  (o_forceset o || (1 <? Z.of_nat (List.length (rules_of its))) || negb (isnil (rdates_of its))
+   || negb (isnil (exrules_of its)) || negb (isnil (exdates_of its))) = true ->
+  parse_rules ev false (start_of its (o_dtstart o)) (rules_of its) = Ok rr ->
+  parse_rules ev false (start_of its (o_dtstart o)) (exrules_of its) = Ok xr ->
+  parse_rfc ev o (join [10] (map (render_item short) its)) =
+  RSet (o_cache o) rr (concat (rdates_of its)) xr (exdates_of its).
+Proof. exact set_assembly_text. Qed.
+Print Assumptions C13_set_assembly.
+
+(* unfold=True / compatible=True at text level: compatible forces a set and adds the start to
+   the rdates ("RRULE:..." alone becomes a one-rule set) *)
+Theorem C13_set_assembly_unfold_compatible : forall ev o short its rr xr,
+  its <> [] -> forallb wf_item its = true -> o_ignoretz o = false ->
+  (o_unfold o || o_compatible o) = true ->
+  (o_forceset o || o_compatible o || (1 <? Z.of_nat (List.length (rules_of its))) || negb (isnil (rdates_of its))
+   || negb (isnil (exrules_of its)) || negb (isnil (exdates_of its))) = true ->
+  parse_rules ev false (start_of its (o_dtstart o)) (rules_of its) = Ok rr ->
+  parse_rules ev false (start_of its (o_dtstart o)) (exrules_of its) = Ok xr ->
+  parse_rfc ev o (join [10] (map (render_item short) its)) =
+  RSet (o_cache o) rr
+       (concat (rdates_of its) ++
+        (if o_compatible o then match start_of its (o_dtstart o) with Some d => [d] | None => [] end else []))
+       xr (exdates_of its).
+Proof. exact set_assembly_unfold. Qed.
+Print Assumptions C13_set_assembly_unfold_compatible.
+
+(* the same after the property loop for any way of obtaining the lines, incl. compatible=True
+   (which adds the start to the rdates) *)
+Theorem C13_set_members : forall ev o names short its rr xr,
+  forallb wf_item its = true -> o_ignoretz o = false ->
+  let fs := o_forceset o || o_compatible o in
+  (fs || (1 <? Z.of_nat (List.length (rules_of its))) || negb (isnil (rdates_of its))
+   || negb (isnil (exrules_of its)) || negb (isnil (exdates_of its))) = true ->
+  parse_rules ev false (start_of its (o_dtstart o)) (rules_of its) = Ok rr ->
+  parse_rules ev false (start_of its (o_dtstart o)) (exrules_of its) = Ok xr ->
+  general ev o fs names (map (render_item short) its) =
+  RSet (o_cache o) rr
+       (concat (rdates_of its) ++
+        (if o_compatible o then match start_of its (o_dtstart o) with Some d => [d] | None => [] end else []))
+       xr (exdates_of its).
+Proof. exact set_assembly. Qed.
+Print Assumptions C13_set_members.
+
+(* unknown or malformed parts raise ValueError *)
+Theorem C13_unknown_part_valueerror : forall ig name value kw,
+  known name = false -> handle ig name value kw = Err EValue.
+Proof. exact unknown_part_valueerror. Qed.
+Print Assumptions C13_unknown_part_valueerror.
+
+Theorem C13_parts_accepted_are_known : forall ig ps kw kw', handle_pairs ig ps kw = Ok kw' ->
+  Forall (fun p => exists name value, split_on 61 p = [name; value] /\ known (upper name) = true) ps.
+Proof. exact handle_pairs_ok_known. Qed.
+Print Assumptions C13_parts_accepted_are_known.
+
+(* a rule line fails with ValueError (or leaves the modelled date forms), except that a line
+   whose parts are all fine but lack FREQ fails with TypeError: finding F-C13-a *)
+Theorem C13_rule_error_classes : forall ev ig line st e, parse_rule ev ig line st = Err e ->
+  ev_or_unmodelled e \/ (e = EType /\ exists kw, parse_rrule_kw ig line = Ok kw /\ k_freq kw = None).
+Proof. exact parse_rule_err. Qed.
+Print Assumptions C13_rule_error_classes.
+
+Theorem C13_malformed_valueerror_refuted_missing_freq :
+  parse_rfc (mkenv 0 (mkdt 2000 1 1 0 0 0 0 0)) (mkopts None false false false false false [])
+            (zs "RRULE:COUNT=3") = RErr EType.
+Proof. exact malformed_valueerror_refuted_missing_freq. Qed.
+Print Assumptions C13_malformed_valueerror_refuted_missing_freq.
+
+Theorem C13_malformed_valueerror_refuted_no_rrule :
+  parse_rfc (mkenv 0 (mkdt 2000 1 1 0 0 0 0 0)) (mkopts None false false false false false [])
+            (zs "DTSTART:20000101") = RErr EIndex.
+Proof. exact malformed_valueerror_refuted_no_rrule. Qed.
+Print Assumptions C13_malformed_valueerror_refuted_no_rrule.
 
 Theorem C13_empty_valueerror : forall ev o, parse_rfc ev o [] = RErr EValue.
 Proof. exact empty_valueerror. Qed.
